@@ -36,9 +36,11 @@ ASSUMPTIONS = [
 S = lambda n: ('s', n)  # noqa: E731
 NUMERIC = [S('int'), S('float'), S('complex'), S('bool'), S('Fraction'), S('Decimal'), ('sub', 'int'), ('sub', 'float'),
            ('enum', 'IntE'), ('enum', 'IE'), ('enum', 'FloatE'), ('enum', 'BoolE'), ('lit', (0, 1)), ('lit', (False, True)),
+           ('lit', (2,)), ('lit', (5, 7)), ('lit', (2.5,)), ('enum', 'IE0'), ('enum', 'FE0'),
            ('ann', S('int'), (('Positive',),)), ('ann', S('float'), (('val_range', 0, 5),))]
 STRINGY = [S('str'), S('Fraction'), S('Decimal'), S('date'), S('time'), S('datetime'), S('PurePosixPath'), S('Path'), S('rePattern'),
-           ('enum', 'SE'), ('enum', 'StrE'), ('lit', ('a', 'x')), ('sub', 'str'), S('bytes'), S('bytearray'), ('sub', 'bytes')]
+           ('enum', 'SE'), ('enum', 'StrE'), ('lit', ('a', 'x')), ('sub', 'str'), S('bytes'), S('bytearray'), ('sub', 'bytes'),
+           ('lit', ('auto',)), ('lit', ('1/2', 'red')), ('lit', (b'ab',)), ('enum', 'SE0')]
 SEQS = [('seq', 'List', S('int')), ('seq', 'TupleVar', S('float')), ('seq', 'Set', S('int')), ('seq', 'Sequence', S('any')),
         ('tup', 'Tuple', (S('int'), S('int'))), ('tup', 'tuple', (S('float'), S('str'))), ('vol', S('int')), ('seq', 'list_bare'),
         ('seq', 'Deque', S('bool')), ('nd', 'int64'), ('nd', None)]
